@@ -31,13 +31,17 @@ def oab_tamper(res, tier, rng):
         # a third of the files have blocks followed by padding larger than the input buffer used (the padding is skipped after the
         # CRC has been compared: an error found there must survive the skipping)
         padded = i % 3 == 2; bufsz = rng.choice([16, 64, 1000]) if padded else 4096
-        padf = (lambda ln: bufsz * rng.choice([2, 5]) + rng.choice([1, 300, 6000])) if padded else None
+        lzlens = []       # length of each LZX stream, in block order (the padding follows it)
+        def padf_(ln): lzlens.append(ln); return max(bufsz, 4096) * 2 + rng.choice([1, 300, 6000])      # the patch decoder reads 4096 bytes at a time whatever DECOMPBUF says
+        padf = padf_ if padded else None
+        bt = [3] if padded else None      # padded files: stored LZX blocks, so that an altered payload byte still decodes (to other bytes) and it is the CRC that must catch it
         if patch and padded:
-            f, base, plain = oabfmt.build_patch(rng, [(rng.choice([0, 100, 3000]), rng.choice([100, 5000])) for _ in range(rng.randrange(1, 3))], pad_fn=padf); lab = "patch-padded"
+            f, base, plain = oabfmt.build_patch(rng, [(rng.choice([0, 100, 3000]), rng.choice([100, 5000])) for _ in range(rng.randrange(1, 3))], pad_fn=padf, btypes=bt); lab = "patch-padded"
         elif patch: f, base, plain, lab = oablib.patch_case(rng)
         else:
-            f, plain = oabfmt.build_full(rng, [rng.choice([100, 5000, 40000]) for _ in range(rng.randrange(1, 3))], kinds=None,
-                                         pad_fn=(lambda i_, ln: padf(ln)) if padded else None); base = None; lab = "full-padded" if padded else "full"
+            nb_ = rng.randrange(1, 3)
+            f, plain = oabfmt.build_full(rng, [rng.choice([100, 5000, 40000]) for _ in range(nb_)], kinds=([1] * nb_ if padded else None),
+                                         pad_fn=(lambda i_, ln: padf(ln)) if padded else None, btypes=bt); base = None; lab = "full-padded" if padded else "full"
         hdr = 28 if patch else 16
         # walk the blocks
         pos = hdr; blocks = []
@@ -47,10 +51,11 @@ def oab_tamper(res, tier, rng):
             else: csize, lzx = b, a == 1
             if lzx and csize: blocks.append((pos, csize))
             pos += 16 + csize
-        for (bp, cs) in blocks:
+        for bi_, (bp, cs) in enumerate(blocks):
             for _ in range(6 if tier == "quick" else 12):
                 r = rng.random(); t = bytearray(f)
-                if r < 0.6: o = bp + 16 + rng.randrange(min(cs, 90) if padded else cs); kind = "payload"     # padded blocks: stay inside the LZX data
+                # padded blocks: the last bytes of the LZX stream (raw data of a stored LZX block), never the padding
+                if r < 0.6: o = bp + 16 + ((lzlens[bi_] - 1 - rng.randrange(min(3, lzlens[bi_]))) if (padded and bi_ < len(lzlens)) else rng.randrange(cs)); kind = "payload"
                 elif r < 0.8: o = bp + (4 if patch else 8) + rng.randrange(4); kind = "dsize"
                 else: o = bp + 12 + rng.randrange(4); kind = "crc"
                 t[o] ^= rng.choice([1, 0x80, 0xFF, rng.randrange(1, 256)])
